@@ -38,8 +38,8 @@ This file: the streamed join kernels (owning properties C03 / C12) and the inven
 Families and owners: join (C03/C12, here), MapValid (C04), Spans (C08), FilterIndex (C09), Unique (C14), Concat (C16),
 Journal (C17), Transforms (C06), Csv (C05), JoinFlat (C19), GroupBy (C07).
 
-Differential only (listed where they belong): kernels without a model (`KernelSites.notModelled`); the `_old` streamed join
-drivers (modelled, no theorem: `Props/C10/JoinFlat.lean`); the buffer-full / regrowth runs of the CSV reader
+Differential only (listed where they belong): kernels without a model (`KernelSites.notModelled`); the buffer-full /
+regrowth runs of the CSV reader
 (`Props/C10/Csv.lean`); indexed `unique` on columns with trailing NULs (`no_oob_unique_partial`); subscripts the models do
 not check (`Model/KernelSitesTransforms.lean` GAPS, `Model/KernelSitesMapValid.lean` `safe_map_indexed_values` result arrays).
 `if` tests that guard a subscript are not part of the regenerated shapes (only loop guards are): their removal is caught by
